@@ -9,10 +9,15 @@ are independent, so it lifts to the unbounded family `Nat → Inst` and, by indu
 every interleaving of H/T/K steps of any number of concurrently live threads (`reachable_inv`).
 
 Tie to the code, re-checked on every run of `bin/check C05`:
- * T: `Gen/ThreadSites.lean` is regenerated from spawn.rs; `gen_shape_ok` / `gen_cfg_good` (by `decide`)
-   pin the operation sequences of `spawn`, the epilogue closure, `on_panic`, `join`, `drop`, the system
-   calls of the `__clone` trampoline, the CAS operands and orderings, `UNFINISHED`, and the model
-   parameters derived from them;
+ * T: `Gen/ThreadSites.lean` is regenerated from spawn.rs by a *semantic* extractor (helper functions of the file
+   inlined, operations recognised by what they do, every path through `spawn`, the thread's entry closure,
+   `on_panic`, `join`, `drop` enumerated, branches tagged by what they decide).  `gen_params_from_paths` (by
+   `decide`) re-derives every model parameter from those paths with position-independent predicates,
+   `gen_shape_ok` checks the partial order between operations the model relies on and that every atomic site has
+   at least the ordering the argument needs (`isAcq` / `isRel`, never an equality), `gen_cfg_good` that the
+   parameters are the ones the proofs need.  Where the extractor does not understand the source it says so
+   (`Op.unknown`, `…Static = false`): the parameter is then what the running code was observed to do and the
+   evidence records that; `gen_cfg_good` is demanded all the same;
  * C: a no-libc probe runs the real code under `strace -f`; every observed history must be accepted by
    `stepI` (driver `drv_c05`), which also predicts each join result.
 
@@ -190,11 +195,12 @@ def isRel : Gen.Thread.Ord → Bool
   | .release | .acqrel | .seqcst => true
   | _ => false
 
-/-- the hand-over CAS: a strong compare_exchange(false, true) on the flag whose success ordering is at least
-Acquire and at least Release (any failure ordering) -/
+/-- the hand-over RMW on the flag: a strong compare_exchange(false, true) — or a swap(true) / fetch_or(true), which
+decide the same thing by the previous value — whose (success) ordering is at least Acquire and at least Release;
+any failure ordering.  `compare_exchange_weak` is not accepted: it may fail spuriously, and then both sides lose. -/
 def goodCas (s : Site) : Bool :=
-  s.op == "compare_exchange" && s.loc == "sync" && s.vals == ["false", "true"] &&
-  isAcq (s.ords.getD 0 .relaxed) && isRel (s.ords.getD 0 .relaxed)
+  ((s.op == "compare_exchange" && s.vals == ["false", "true"]) || ((s.op == "swap" || s.op == "fetch_or") && s.vals == ["true"])) &&
+  s.loc == "sync" && isAcq (s.ords.getD 0 .relaxed) && isRel (s.ords.getD 0 .relaxed)
 
 /-- a site of the exit wait: a load of the exit word that is at least Acquire, or the futex wait on that word -/
 def goodWaitSite (s : Site) : Bool :=
